@@ -476,7 +476,7 @@ pub fn run(args: &Args, rep: &Arc<Report>) {
             rep.set_rule("replay of one Residual::new case");
             return;
         }
-        if c.get("frame_header_new").is_some() || c.get("metadata_unknown").is_some() || c.get("parsed_residual").is_some() {
+        if c.get("frame_header_new").is_some() || c.get("frame_header_new_then_set_offset").is_some() || c.get("metadata_unknown").is_some() || c.get("parsed_residual").is_some() {
             run_headers_and_metadata(rep);
             rep.set_rule("replay: constructor grids re-run");
             return;
